@@ -19,7 +19,7 @@ import numpy as np
 from harness import common as C
 
 HEADER = """From Coq Require Import List ZArith QArith Bool. Import ListNotations.
-From TLV Require Import Base.Tensor Corr.C19.
+From TLV Require Import Base.Tensor Model.RegressObj Corr.C19.
 Local Open Scope nat_scope."""
 
 RT = 1e-9          # implementation vs exact arithmetic on the same stored numbers
@@ -530,11 +530,48 @@ def fit_plsr_opts(X, Y, ncomp, n_iter, tol):
     return CP_PLSR(n_components=ncomp, tol=tol, n_iter_max=n_iter, random_state=0).fit(X.copy(), Y.copy())
 
 
+def plsr_tapes(r, X, Y, ncomp):
+    """the answers of the two black boxes of the model, recorded from a fitted object: lstsq's from coef_, initialize_cp's by
+    calling it on the Z of every component (Z recomputed from the exposed factors with the deflation formula of the source).
+    -> (list of itape entries, list of btape entries) or a status string"""
+    from tensorly.decomposition._cp import initialize_cp
+    Xf = [np.asarray(f, dtype=np.float64) for f in r.X_factors]
+    Yf = [np.asarray(f, dtype=np.float64) for f in r.Y_factors]
+    coef = np.asarray(r.coef_, dtype=np.float64)
+    Y2 = Y.reshape(-1, 1) if Y.ndim == 1 else Y
+    Xc = X - np.mean(X, axis=0)
+    Yc = Y2 - np.mean(Y2, axis=0)
+    itape = []
+    for c in range(ncomp):
+        Z = np.tensordot(Xc, Yc[:, 0], axes=((0,), (0,)))
+        if np.linalg.norm(Z) < 1e-6:
+            return "ill-conditioned"
+        if Z.ndim >= 2:
+            # the answer of the SVD initialisation is only well determined when the leading singular value of every
+            # unfolding is separated
+            for k in range(Z.ndim):
+                sv = np.linalg.svd(np.moveaxis(Z, k, 0).reshape(Z.shape[k], -1), compute_uv=False)
+                if len(sv) > 1 and (sv[0] - sv[1]) < 1e-3 * sv[0]:
+                    return "ill-conditioned"
+        st2, kt = call(initialize_cp, Z.copy(), 1, normalize_factors=True)
+        if st2 != "ok":
+            return "init-raised"
+        ans = [np.asarray(f, dtype=np.float64).reshape(-1) for f in kt.factors]
+        itape.append(f"({qt(Z)}, {lst(qt(a) for a in ans)})")
+        t = Xf[0][:, c]
+        outer = t
+        for f in Xf[1:]:
+            outer = np.multiply.outer(outer, f[:, c])
+        Xc = Xc - outer
+        Yc = Yc - np.outer(Xf[0][:, :c + 1] @ coef[:c + 1, c], Yf[1][:, c])
+    btape = [C.q_list(coef[:c + 1, c].tolist()) for c in range(ncomp)]
+    return itape, btape
+
+
 def plsr_fit_case(p):
     """-> (status, coq case or None).  The answers of the two black boxes of the model are recorded from the
     implementation: lstsq's from coef_, initialize_cp's by calling it on the Z of every component (Z recomputed
     from the exposed factors with the deflation formula of the source)."""
-    from tensorly.decomposition._cp import initialize_cp
     X, Y, ncomp = p["X"], p["y"], p["ncomp"]
     if p.get("ctor") == "KPlsrFitConv" and p["tol"] is None:
         p["tol"] = plsr_conv_tol(p)
@@ -547,34 +584,12 @@ def plsr_fit_case(p):
         return "ill-conditioned", None
     Xf = [np.asarray(f, dtype=np.float64) for f in r.X_factors]
     Yf = [np.asarray(f, dtype=np.float64) for f in r.Y_factors]
-    coef = np.asarray(r.coef_, dtype=np.float64)
     Y2 = Y.reshape(-1, 1) if Y.ndim == 1 else Y
-    Xc = X - np.mean(X, axis=0)
-    Yc = Y2 - np.mean(Y2, axis=0)
-    itape, gaps = [], []
-    for c in range(ncomp):
-        Z = np.tensordot(Xc, Yc[:, 0], axes=((0,), (0,)))
-        if np.linalg.norm(Z) < 1e-6:
-            return "ill-conditioned", None
-        if Z.ndim >= 2:
-            # the answer of the SVD initialisation is only well determined when the leading singular value of every
-            # unfolding is separated
-            for k in range(Z.ndim):
-                sv = np.linalg.svd(np.moveaxis(Z, k, 0).reshape(Z.shape[k], -1), compute_uv=False)
-                if len(sv) > 1 and (sv[0] - sv[1]) < 1e-3 * sv[0]:
-                    return "ill-conditioned", None
-        st2, kt = call(initialize_cp, Z.copy(), 1, normalize_factors=True)
-        if st2 != "ok":
-            return "init-raised", None
-        ans = [np.asarray(f, dtype=np.float64).reshape(-1) for f in kt.factors]
-        itape.append(f"({qt(Z)}, {lst(qt(a) for a in ans)})")
-        t = Xf[0][:, c]
-        outer = t
-        for f in Xf[1:]:
-            outer = np.multiply.outer(outer, f[:, c])
-        Xc = Xc - outer
-        Yc = Yc - np.outer(Xf[0][:, :c + 1] @ coef[:c + 1, c], Yf[1][:, c])
-    btape = lst(C.q_list(coef[:c + 1, c].tolist()) for c in range(ncomp))
+    tp = plsr_tapes(r, X, Y, ncomp)
+    if isinstance(tp, str):
+        return tp, None
+    itape, btape = tp
+    btape = lst(btape)
     e_loads = lst(lst(qt(f[:, c]) for f in Xf[1:]) for c in range(ncomp))
     e_scores = lst(C.q_list(Xf[0][:, c].tolist()) for c in range(ncomp))
     e_yloads = lst(qt(Yf[1][:, c]) for c in range(ncomp))
@@ -691,17 +706,259 @@ def loop_case(p):
     eW = np.asarray(r.weight_tensor_, dtype=np.float64)
     # the statements of the property on this run too (a run that stops by convergence is rare among the random fits)
     p["loop_bad"] = reg_predicates(dict(kind="cp" if cp else "tucker", X=p["X"], Xn=p["X"][:2]), r)
+    # n_iterations_ / norm_W_: one norm per executed pass, the last one is the norm of the stored weight_tensor_
+    nit, nW = int(r.n_iterations_), [float(v) for v in r.norm_W_]
+    if nit != len(nW) or not (1 <= nit <= N):
+        p["loop_bad"].append(("C19_fit_trace", f"n_iterations_ = {nit} but norm_W_ has {len(nW)} entries (n_iter_max = {N})"))
+    elif not close(nW[-1], float(np.linalg.norm(eW)), 1e-9):
+        p["loop_bad"].append(("C19_fit_trace", "norm_W_[-1] is not the norm of the stored weight_tensor_ (weight_tensor_ is not the last pass's)"))
+    trace = f"{C.nat(nit)} {C.q_list(nW)}"
     qtol = C.q(max(min(tol, 1e30), -1.0))
     if cp:
         tape = lst(lst(qt(f) for f in b[1]) for b in its)
         so = tuple(p["y"].shape[1:])
         R = p["rank"]
         case = (f"KCpLoop {C.nat(N)} {qtol} {C.q(float(p['reg']))} {C.nat(R)} {C.nat_list(so)} {qt(p['X'])} {qt(p['y'])} {lst(qt(f) for f in W0)} {tape} "
-                f"{qt(eW)} {lst(qt(f) for f in r.cp_weight_[1])}")
+                f"{qt(eW)} {lst(qt(f) for f in r.cp_weight_[1])} {trace}")
     else:
         tape = lst(f"({qt(b[0])}, {lst(qt(f) for f in b[1])})" for b in its)
-        case = f"KTkLoop {C.nat(N)} {qtol} {C.q(float(p['reg']))} {qt(p['X'])} {qt(p['y'])} {qt(G0)} {lst(qt(f) for f in W0)} {tape} {qt(eW)}"
+        case = f"KTkLoop {C.nat(N)} {qtol} {C.q(float(p['reg']))} {qt(p['X'])} {qt(p['y'])} {qt(G0)} {lst(qt(f) for f in W0)} {tape} {qt(eW)} {trace}"
     return "ok", case
+
+
+# ----------------------------------------------------------------------------- one object under a sequence of calls
+def _raised(out):
+    return out[0] != "ok"
+
+
+def rprm_lit(kind, params):
+    """(n_iter_max, [the other constructor parameters as numbers]) -- the Prm of KRegSeq"""
+    ranks = [params["weight_rank"]] if kind == "cp" else list(params["weight_ranks"])
+    nums = [float(x) for x in ranks] + [float(params["tol"]), float(params["reg_W"]), float(params["random_state"])]
+    return f"({C.nat(int(params['n_iter_max']))}, {C.q_list(nums)})"
+
+
+def reg_seq_program(rng, kind):
+    """two data sets of different per-sample shape, initial constructor parameters, a list of operations"""
+    cp = kind == "cp"
+    def mkdata():
+        order = rng.choice([1, 2, 3]) if cp else rng.choice([2, 3])
+        sx = tuple(rng.randint(2, 3) for _ in range(order))
+        so = rng.choice([(), (2,), (2, 2)]) if cp else ()
+        if order == 1 and so == ():
+            so = (2,)
+        n = rng.randint(3, 6)
+        return dict(X=dyadic(rng, (n,) + sx, denom=16, lo=-48, hi=48), y=dyadic(rng, (n,) + so, denom=16, lo=-48, hi=48),
+                    Xn=dyadic(rng, (rng.randint(1, 3),) + sx), sx=sx, so=so)
+    A, B = mkdata(), mkdata()
+    def rk(d):
+        return {"weight_rank": rng.randint(1, 2)} if cp else {"weight_ranks": [rng.randint(1, 2) for _ in d["sx"]]}
+    params = dict(tol=1e-14, reg_W=rng.choice([0.5, 1, 3.0]), n_iter_max=rng.randint(1, 3), random_state=rng.randint(0, 10 ** 6), verbose=0)
+    params.update(rk(A))
+    ops = [("predict", "A"), ("get",), ("fit", "A"), ("predict", "A"), ("predict_train", "A"),
+           ("set", {"n_iter_max": 0}), ("fit", "B"), ("predict", "A"),
+           ("set", dict(n_iter_max=rng.randint(1, 3), reg_W=rng.choice([0.25, 2.0]), **rk(B))), ("get",), ("fit", "B"), ("predict", "B"), ("predict", "A"),
+           ("fit_bad", "B"), ("predict", "B")]
+    pool = [("fit", "A"), ("fit", "B"), ("predict", "A"), ("predict", "B"), ("set", {"n_iter_max": 0}), ("set", {"n_iter_max": rng.randint(1, 3)}),
+            ("set", {"random_state": rng.randint(0, 10 ** 6)}), ("get",), ("fit_bad", "A")]
+    for _ in range(rng.randint(3, 7)):
+        op = rng.choice(pool)
+        if op[0] == "fit" and not cp:
+            ops.append(("set", rk(A if op[1] == "A" else B)))       # Tucker: the ranks must fit the order of the data
+        ops.append(op)
+    ops.append(("predict", rng.choice("AB")))
+    return dict(A=A, B=B, params=params, ops=ops)
+
+
+def reg_seq_case(prog, kind):
+    """run the program on ONE object; every fit is also run on a FRESH object with the parameters in force (its exposed
+    blocks are the answer the model's fit returns).  -> (status, coq case, predicate failures)"""
+    from tensorly.regression.cp_regression import CPRegressor
+    from tensorly.regression.tucker_regression import TuckerRegressor
+    cp = kind == "cp"
+    Cls = CPRegressor if cp else TuckerRegressor
+    cur = dict(prog["params"])
+    r = Cls(**cur)
+    fits, calls, exp, bad = [], [], [], []
+    for op in prog["ops"]:
+        if op[0] in ("fit", "fit_bad"):
+            d = prog[op[1]]
+            y = d["y"] if op[0] == "fit" else np.concatenate([d["y"], d["y"][:1]])     # fit_bad: one target too many
+            before = getattr(r, "weight_tensor_", None)
+            st_f, fresh = call(lambda: Cls(**cur).fit(d["X"].copy(), y.copy()))
+            out = call(r.fit, d["X"].copy(), y.copy())
+            if st_f == "ok":
+                blocks = fresh.cp_weight_ if cp else fresh.tucker_weight_
+                if not finite_ok(np.asarray(blocks[0]), *[np.asarray(f) for f in blocks[1]]):
+                    return "non-finite", None, []
+                fits.append(f"(Some ({qt(blocks[0])}, {lst(qt(f) for f in blocks[1])}))")
+            else:
+                fits.append("None")
+            calls.append(f"RFit {C.nat(len(fits) - 1)}")
+            exp.append("ORaise" if _raised(out) else "OSelf")
+            if _raised(out) and before is not None and getattr(r, "weight_tensor_", None) is not before:
+                bad.append(("C19_object_state", f"a fit that raised ({out[1]}) re-bound weight_tensor_"))
+        elif op[0] in ("predict", "predict_train"):
+            d = prog[op[1]]
+            Xq = d["Xn"] if op[0] == "predict" else d["X"]
+            out = call(r.predict, Xq.copy())
+            calls.append(f"RPredict {qt(Xq)}")
+            exp.append("ORaise" if _raised(out) else f"OTensor {qt(out[1])}")
+            if not hasattr(r, "weight_tensor_"):
+                if not _raised(out):
+                    bad.append(("C19_object_state", "predict on an object without weight_tensor_ returned a value"))
+            else:
+                W = np.asarray(r.weight_tensor_)
+                if W.ndim >= Xq.ndim - 1 and W.shape[:Xq.ndim - 1] == Xq.shape[1:]:
+                    if _raised(out) or not close(out[1], contract(Xq, W)):
+                        bad.append(("C19_predict_is_contraction", f"call {len(calls)} of a sequence on one object: predict != tensordot(X, weight_tensor_ exposed at that moment)"))
+                    blocks = r.cp_weight_ if cp else r.tucker_weight_
+                    full = cp_full(np.asarray(blocks[0]), [np.asarray(f) for f in blocks[1]]) if cp else tucker_full(np.asarray(blocks[0]), [np.asarray(f) for f in blocks[1]])
+                    if not close(W, full) or not close(np.asarray(r.vec_W_), W.reshape(-1), 1e-12):
+                        bad.append(("C19_weight_is_reconstruction", f"call {len(calls)} of a sequence on one object: weight_tensor_ / vec_W_ / exposed blocks are not from one fit"))
+        elif op[0] == "set":
+            cur.update(op[1])
+            out = call(r.set_params, **op[1])
+            calls.append(f"RSetParams {rprm_lit(kind, cur)}")
+            exp.append("ORaise" if _raised(out) else "OSelf")
+        else:
+            out = call(r.get_params)
+            calls.append("RGetParams")
+            exp.append("ORaise" if _raised(out) else f"OParams {rprm_lit(kind, out[1])}")
+    case = f"KRegSeq {C.boolc(cp)} {rprm_lit(kind, prog['params'])} {lst(fits)} {lst(calls)} {lst(exp)}"
+    return "ok", case, bad
+
+
+def plsr_seq_program(rng):
+    def mkdata():
+        order = rng.choice([1, 2, 2, 3])
+        sx = tuple(rng.randint(2, 3) for _ in range(order))
+        n = rng.randint(4, 6)
+        m = rng.choice([0, 1, 2, 3])
+        X = dyadic(rng, (n,) + sx, denom=16, lo=-48, hi=48)
+        Bm = dyadic(rng, (int(np.prod(sx)), max(m, 1)), denom=4, lo=-8, hi=8)
+        Y = X.reshape(n, -1) @ Bm + 0.25 * dyadic(rng, (n, max(m, 1)), denom=8, lo=-16, hi=16)
+        if m == 0:
+            Y = Y[:, 0]
+        return dict(X=X, Y=Y, Xn=dyadic(rng, (rng.randint(1, 3),) + sx), Yn=None, sx=sx, m=m,
+                    cmax=max(1, min(2, n - 2, int(np.prod(sx)) - 1)))
+    A, B = mkdata(), mkdata()
+    for d in (A, B):
+        nn = d["Xn"].shape[0]
+        d["Yn"] = dyadic(rng, (nn,) if d["m"] == 0 else (nn, d["m"]), denom=8)
+    params = dict(n_components=rng.randint(1, A["cmax"]), n_iter_max=rng.randint(1, 3), tol=0.0)
+    kA = params["n_components"]
+    ops = [("predict", "A"), ("transform", "A"), ("fit", "A"), ("transform_train", "A"), ("predict", "A"), ("transform_xy", "A"), ("transform_xy_train", "A"),
+           ("predict", "B"),
+           ("set", {"n_components": kA - 1}), ("transform_train", "A"), ("predict", "A"), ("transform_xy", "A"),
+           ("set", {"n_components": kA + 1}), ("transform", "A"), ("set", {"n_components": kA}), ("predict", "A"),
+           ("fit_bad", "A", rng.choice(["uncoupled", "vectorX", "Y3d"])), ("predict", "A"),
+           ("set", {"n_iter_max": 0}), ("fit", "B"), ("predict", "B"), ("transform", "B"), ("predict", "A"),
+           ("set", {"n_iter_max": rng.randint(1, 3), "n_components": rng.randint(1, B["cmax"])}), ("fit_transform", "B"), ("predict", "B"), ("transform_xy", "B"),
+           ("transform_bad_y", "B", rng.choice(["Y3d", "cols"]))]
+    pool = [("fit", "A"), ("fit", "B"), ("fit_transform", "A"), ("predict", "A"), ("predict", "B"), ("transform", "A"), ("transform_xy", "B"),
+            ("set", {"n_iter_max": 0}), ("set", {"n_iter_max": rng.randint(1, 2)}), ("set", {"n_components": rng.randint(0, min(A["cmax"], B["cmax"]))}),
+            ("fit_bad", "B", rng.choice(["uncoupled", "vectorX", "Y3d"])), ("transform_train", "B")]
+    for _ in range(rng.randint(2, 6)):
+        ops.append(rng.choice(pool))
+    ops.append(("predict", rng.choice("AB")))
+    return dict(A=A, B=B, params=params, ops=ops)
+
+
+def plsr_seq_case(prog):
+    from tensorly.regression.cp_plsr import CP_PLSR
+    cur = dict(prog["params"])
+    r = CP_PLSR(cur["n_components"], tol=cur["tol"], n_iter_max=cur["n_iter_max"])
+    calls, exp, bad = [], [], []
+    fitted = None                 # (data key, fitted width) of the last successful fit
+    def outlit(out):
+        if _raised(out):
+            return "PRaise"
+        v = out[1]
+        if isinstance(v, tuple):
+            return f"PPair {qt(v[0])} {qt(v[1])}"
+        return f"PTensor {qt(v)}"
+    for op in prog["ops"]:
+        d = prog[op[1]] if len(op) > 1 and isinstance(op[1], str) else None
+        if op[0] in ("fit", "fit_transform", "fit_bad"):
+            X, Y = d["X"], d["Y"]
+            if op[0] == "fit_bad":
+                if op[2] == "uncoupled":
+                    Y = np.concatenate([Y, Y[:1]])
+                elif op[2] == "vectorX":
+                    X = X.reshape(X.shape[0], -1)[:, 0].copy()
+                else:
+                    Y = np.stack([np.atleast_2d(Y.T).T] * 2, axis=2)
+            st_f, fresh = call(lambda: CP_PLSR(cur["n_components"], tol=cur["tol"], n_iter_max=cur["n_iter_max"]).fit(X.copy(), Y.copy()))
+            if st_f == "ok" and cur["n_components"] > 0:
+                if not plsr_wellposed(fresh):
+                    return "ill-conditioned", None, []
+                tp = plsr_tapes(fresh, X, Y, cur["n_components"])
+                if isinstance(tp, str):
+                    return tp, None, []
+                it, bt = lst(tp[0]), lst(tp[1])
+            else:
+                it, bt = "[]", "[]"
+            fn = r.fit_transform if op[0] == "fit_transform" else r.fit
+            out = call(fn, X.copy(), Y.copy())
+            calls.append(f"{'QFitTransform' if op[0] == 'fit_transform' else 'QFit'} {qt(X)} {qt(Y)} {it} {bt}")
+            exp.append("PSelf" if (not _raised(out) and op[0] != "fit_transform") else outlit(out))
+            if not _raised(out):
+                fitted = (op[1], cur["n_components"])
+                if op[0] == "fit_transform" and not (isinstance(out[1], tuple) and close(out[1][0], r.X_factors[0], 1e-8) and close(out[1][1], r.Y_factors[0], 1e-8)):
+                    bad.append(("C19_plsr_transform_train", "fit_transform(X, Y) in a sequence on one object != the fitted scores"))
+            elif op[0] != "fit_bad" and cur["n_iter_max"] == 0 and cur["n_components"] > 0:
+                fitted = None
+                st_p, pz = call(r.predict, d["Xn"].copy())
+                if st_p != "ok" or not close(pz, np.broadcast_to(np.mean(np.atleast_2d(d["Y"].T).T, axis=0), np.shape(pz)), 1e-12):
+                    bad.append(("C19_plsr_predict", "after a fit that raised in the component loop predict does not answer with the exposed (zero) weights"))
+        elif op[0] == "set":
+            cur.update(op[1])
+            out = call(r.set_params, **op[1])
+            calls.append(f"QSetParams {C.nat(cur['n_components'])} {C.nat(cur['n_iter_max'])} {C.q(cur['tol'])}")
+            exp.append("PRaise" if _raised(out) else "PSelf")
+        elif op[0] == "predict":
+            out = call(r.predict, d["Xn"].copy())
+            calls.append(f"QPredict {qt(d['Xn'])}")
+            exp.append(outlit(out))
+        elif op[0] in ("transform", "transform_train"):
+            Xq = d["Xn"] if op[0] == "transform" else d["X"]
+            out = call(r.transform, Xq.copy())
+            calls.append(f"QTransform {qt(Xq)} None")
+            exp.append(outlit(out))
+            if op[0] == "transform_train" and fitted is not None and fitted[0] == op[1] and cur["n_components"] <= fitted[1]:
+                if _raised(out) or not close(out[1], np.asarray(r.X_factors[0])[:, :cur["n_components"]], 1e-8):
+                    bad.append(("C19_plsr_transform_train", f"transform(X_train) with n_components = {cur['n_components']} (fitted {fitted[1]}) != the leading fitted score columns"))
+        elif op[0] in ("transform_xy", "transform_xy_train", "transform_bad_y"):
+            Xq, Yq = (d["X"], d["Y"]) if op[0] == "transform_xy_train" else (d["Xn"], d["Yn"])
+            if op[0] == "transform_bad_y":
+                Yq = np.stack([np.atleast_2d(Yq.T).T] * 2, axis=2) if op[2] == "Y3d" else np.concatenate([np.atleast_2d(Yq.T).T] * 2, axis=1)
+            out = call(r.transform, Xq.copy(), Yq.copy())
+            calls.append(f"QTransform {qt(Xq)} (Some {qt(Yq)})")
+            exp.append(outlit(out))
+    p0 = prog["params"]
+    case = f"KPlsrSeq {C.nat(p0['n_components'])} {C.nat(p0['n_iter_max'])} {C.q(p0['tol'])} {lst(calls)} {lst(exp)}"
+    return "ok", case, bad
+
+
+def seq_problems(tier, rng):
+    n = 4 if tier == "quick" else 30
+    out = []
+    for k in range(n):
+        out.append(dict(kind="reg_seq", which="cp" if k % 2 == 0 else "tucker", gen_seed=rng.randint(0, 10 ** 9)))
+    for k in range(n):
+        out.append(dict(kind="plsr_seq", gen_seed=rng.randint(0, 10 ** 9)))
+    return out
+
+
+def seq_eval(p):
+    """-> (status, coq case, predicate failures, program)"""
+    g = random.Random(p["gen_seed"])
+    if p["kind"] == "reg_seq":
+        prog = reg_seq_program(g, p["which"])
+        return reg_seq_case(prog, p["which"]) + (prog,)
+    prog = plsr_seq_program(g)
+    return plsr_seq_case(prog) + (prog,)
 
 
 # ----------------------------------------------------------------------------- driver
@@ -825,6 +1082,24 @@ def run(chk):
             meta.append({"kind": p["kind"], "case": c2.split(" ", 1)[0] + " (two-fit: " + ("permuted" if c2.startswith("KPlsrFitPerm") else "shifted") + " run)",
                          "X_shape": list(p["X"].shape), "y_shape": list(np.shape(p["y"])), "params": {k: p[k] for k in ("ncomp", "n_iter", "tol")}, "problem": describe(p)})
             chk.count(n=1); chk.hist("case", "KPlsrFitPerm" if c2.startswith("KPlsrFitPerm") else "KPlsrFit(shifted run)")
+    # one object under sequences of calls (predict / transform before fit, raising fits, refits, set_params in between)
+    for p in seq_problems(chk.tier, rng):
+        try:
+            status, c, bad, prog = seq_eval(p)
+        except Skip:
+            status, c, bad, prog = "timeout-skipped", None, [], None
+        chk.hist("fit_status_" + p["kind"], status)
+        if c is None:
+            skipped += 1
+            continue
+        ent = ENTRY[p.get("which", "plsr")]
+        for pred, msg in bad:
+            chk.finding(ent, dict(p), msg, pred)
+        cases.append(f"({len(cases)}%nat, {c})")
+        meta.append({"kind": p["kind"], "case": c.split(" ", 1)[0], "params": dict(p), "program": [str(o[:1] + tuple(x for x in o[1:] if not isinstance(x, np.ndarray))) for o in prog["ops"]],
+                     "initial_params": {k: (v if not isinstance(v, list) else list(v)) for k, v in prog["params"].items()}})
+        chk.count(key=(p["kind"], p.get("which", "plsr"), p["gen_seed"]), nontrivial=True); chk.hist("case", c.split(" ", 1)[0])
+        chk.hist("sequence_length", len(prog["ops"]))
     # the budget test of CP_PLSR.fit (n_iter_max = 0 raises iff there is a component to fit)
     Xb = dyadic(rng, (4, 2, 3), denom=8); Yb = dyadic(rng, (4, 2), denom=8)
     for n_it, n_c in ((0, 1), (0, 2), (0, 0), (1, 0), (1, 1)):
@@ -858,7 +1133,7 @@ def run(chk):
                          "params": {k: v for k, v in p.items() if k in ("rank", "reg", "seed", "n_iter", "ncomp", "tol")}, "problem": describe(p)})
             chk.count(n=1); chk.hist("case", c.split(" ", 1)[0])
     # the generators construct well-posed problems: if most of them do not yield a usable fit the check would be vacuous
-    for kind in ("cp", "tucker", "plsr", "plsr_fit", "plsr_conv", "cp_loop", "tucker_loop"):
+    for kind in ("cp", "tucker", "plsr", "plsr_fit", "plsr_conv", "cp_loop", "tucker_loop", "reg_seq", "plsr_seq"):
         h = chk.cov["histograms"].get("fit_status_" + kind, {})
         tried = sum(v for k, v in h.items() if k not in ("timeout-skipped", "no-margin"))
         if tried >= 4 and 2 * h.get("ok", 0) < tried:
@@ -910,6 +1185,14 @@ def replay(payload):
         okk = out[0] == "ok" and np.shape(out[1]) == contract(p["X"], p["W"]).shape and np.array_equal(out[1], contract(p["X"], p["W"]))
         print("replay: predict_z ->", "holds" if okk else "fails")
         return 0 if okk else 1
+    if p.get("kind") in ("reg_seq", "plsr_seq"):
+        try:
+            status, _, bad, _ = seq_eval({k: (int(v) if k == "gen_seed" else v) for k, v in p.items()})
+        except Skip:
+            print("replay: timed out (machine loaded); not a verdict")
+            return 1
+        print("replay:", p["kind"], status, "->", [b[0] for b in bad] or "holds")
+        return 1 if bad else 0
     for k in ("rank",):
         if isinstance(p.get(k), list):
             p[k] = [int(x) for x in p[k]]
